@@ -12,7 +12,7 @@ import (
 
 // submitFinal sends a self-contained query (path condition + extra) to the pool of fresh solver processes.
 func (e *Exec) submitFinal(s *State, kind, label string, pc []string, extra []string) *FinalQuery {
-	q := &FinalQuery{Harness: e.harness, Kind: kind, Label: label, PathID: s.ID, Choices: append([]int{}, s.Choices...)}
+	q := &FinalQuery{Harness: e.harness, Kind: kind, Label: label, PathID: s.ID, Choices: append([]int{}, s.Choices...), InSeq: append([]string{}, s.InSeq...)}
 	e.submitQuery(q, pc, extra)
 	return q
 }
@@ -48,6 +48,7 @@ func init() {
 	anyInt := func(tag string, lo, hi *big.Int) intrinsic {
 		return func(e *Exec, s *State, f *Frame, x *ssa.Call, a []Val) ([]*State, bool) {
 			n := e.newInput("in", tag, false)
+			s.InSeq = append(s.InSeq, tag+":"+n)
 			e.sol.axiom("(and (>= " + n + " " + smtInt(lo) + ") (<= " + n + " " + smtInt(hi) + "))")
 			return ret(f, x, Sym{S: n})
 		}
@@ -59,11 +60,13 @@ func init() {
 	reg(vp+"AnyUint32", anyInt("uint32", big.NewInt(0), big.NewInt(1<<32-1)))
 	reg(vp+"AnyBool", func(e *Exec, s *State, f *Frame, x *ssa.Call, a []Val) ([]*State, bool) {
 		n := e.newInput("inb", "bool", true)
+		s.InSeq = append(s.InSeq, "bool:"+n)
 		return ret(f, x, Sym{Bool: true, S: n})
 	})
 	anyBig := func(tag string) intrinsic {
 		return func(e *Exec, s *State, f *Frame, x *ssa.Call, a []Val) ([]*State, bool) {
 			n := e.newInput("inB", tag, false)
+			s.InSeq = append(s.InSeq, tag+":"+n)
 			e.sol.axiom("(and (< " + n + " " + limInt + ") (> " + n + " (- " + limInt + ")))")
 			return ret(f, x, BigV{T: n})
 		}
@@ -72,6 +75,7 @@ func init() {
 	reg(vp+"AnyDec", anyBig("dec"))
 	reg(vp+"AnyTime", func(e *Exec, s *State, f *Frame, x *ssa.Call, a []Val) ([]*State, bool) {
 		n := e.newInput("intime", "time", false)
+		s.InSeq = append(s.InSeq, "time:"+n)
 		e.sol.axiom("(and (>= " + n + " 0) (< " + n + " 4000000000))")
 		return ret(f, x, TimeV{T: n})
 	})
@@ -417,9 +421,9 @@ func (e *Exec) flushAsserts(s *State) {
 	for _, a := range as {
 		conds = append(conds, a.Cond)
 	}
-	q := &FinalQuery{Harness: e.harness, Kind: "batch", Batch: as, BatchPC: append([]string{}, s.PC...), Choices: append([]int{}, s.Choices...)}
+	q := &FinalQuery{Harness: e.harness, Kind: "batch", Batch: as, BatchPC: append([]string{}, s.PC...), Choices: append([]int{}, s.Choices...), InSeq: append([]string{}, s.InSeq...)}
 	q.expand = func(a pendingAssert) (*FinalQuery, string) {
-		iq := &FinalQuery{Harness: q.Harness, Kind: "assert", Label: a.Label, Choices: q.Choices}
+		iq := &FinalQuery{Harness: q.Harness, Kind: "assert", Label: a.Label, Choices: q.Choices, InSeq: q.InSeq}
 		extra := []string{tNot(a.Cond)}
 		e.mu.Lock()
 		inputs := e.inputs
